@@ -4,6 +4,7 @@ import (
 	"flag"
 	"fmt"
 	"os"
+	"runtime/pprof"
 	"sort"
 	"time"
 
@@ -11,6 +12,11 @@ import (
 )
 
 func main() {
+	if pf := os.Getenv("GOVC_PROF"); pf != "" {
+		f, _ := os.Create(pf)
+		pprof.StartCPUProfile(f)
+		defer pprof.StopCPUProfile()
+	}
 	if len(os.Args) < 2 {
 		fmt.Fprintln(os.Stderr, "usage: govc <verify|check|...> ...")
 		os.Exit(2)
@@ -124,7 +130,7 @@ func cmdTables(args []string) {
 	}
 }
 
-var unwinders = map[string]*Unwinder{"ean": unwEAN, "qr": unwQR, "dm": unwDM}
+var unwinders = map[string]*Unwinder{"ean": unwEAN, "qr": unwQR, "dm": unwDM, "aztec": unwAztec}
 
 func cmdUnwind(args []string) {
 	fs := flag.NewFlagSet("unwind", flag.ExitOnError)
